@@ -7,7 +7,8 @@
 #  4. native exhaustive enumeration: every reference oracle agrees with the real
 #     library on small alphabets (for C16 also with the real encoding/json)
 export GOFLAGS=-mod=mod GOPROXY=off GOSUMDB=off GOTOOLCHAIN=local
-cd /verif
+cd "$(dirname "$0")" || exit 2
+export GOSYM_VERIF="$(pwd)"
 fail=0
 say() { echo "selftest: $*"; }
 sum() { grep -E "^[A-Z0-9]+ [A-Za-z0-9_]+: paths=" | sed -E 's/ solver=[0-9.]+s//; s/ wall=[0-9.]+s//; s/queries=[0-9]+ \(sat [0-9]+ unsat [0-9]+ unknown [0-9]+\) //; s/decisions=[0-9]+ //; s/asserts=[0-9]+ proved=[0-9]+ //'; }
